@@ -7,9 +7,9 @@ import (
 	"io"
 
 	"seehuhn.de/go/pdf"
-	"seehuhn.de/go/xmp"
 	"seehuhn.de/go/pdf/verif/internal/gen"
 	"seehuhn.de/go/pdf/verif/internal/vt"
+	"seehuhn.de/go/xmp"
 )
 
 // findingNilDict is the known finding of C01 which also shows through the
